@@ -23,7 +23,7 @@ run_one() { # id prop patch
   local rc=$?
   # evidence / replays written by this run belong to the mutant, not to /repo: restored below
   if [ $rc = 1 ] && grep -q "^VIOLATION property=$prop" "$out"; then
-    echo "SENSITIVITY $id ($prop): detected  [$(grep -m1 'signature:' "$out" | sed 's/^ *//')]"; pass=$((pass+1)); results+=("$id detected")
+    echo "SENSITIVITY $id ($prop): detected  [$(grep -m1 'signature:' "$out" | sed 's/^ *//')] $(grep -o 'runs=[0-9]* .*wall=[0-9.]*s' "$out" | tail -1 | sed 's/distinct_nontrivial=[0-9]* //;s/worker_processes=[0-9]* //')"; pass=$((pass+1)); results+=("$id detected")
   else
     echo "SENSITIVITY $id ($prop): MISSED (exit $rc)"; tail -3 "$out"; miss=$((miss+1)); results+=("$id MISSED")
   fi
